@@ -23,9 +23,36 @@ pub fn catch<R>(f: impl FnOnce() -> R) -> Option<R> {
 
 /// Installs a hook that is silent for expected panics and prints harness bugs.
 pub fn install_hook() {
+    install_logger();
     std::panic::set_hook(Box::new(|info| {
         if depth() == 0 {
             eprintln!("HARNESS PANIC: {info}");
         }
     }));
+}
+
+/// A `log` sink that formats every record (so that the arguments of the
+/// crates' `log::debug!`/`warn!` calls are evaluated, as they are in a kernel
+/// that has a logger) and throws the text away.
+struct Sink;
+
+impl log::Log for Sink {
+    fn enabled(&self, _: &log::Metadata) -> bool {
+        true
+    }
+    fn log(&self, record: &log::Record) {
+        use std::fmt::Write;
+        let mut s = String::new();
+        let _ = write!(s, "{}", record.args());
+        std::hint::black_box(&s);
+    }
+    fn flush(&self) {}
+}
+
+static SINK: Sink = Sink;
+
+/// Installs the formatting sink with the most verbose level (idempotent).
+pub fn install_logger() {
+    let _ = log::set_logger(&SINK);
+    log::set_max_level(log::LevelFilter::Trace);
 }
